@@ -1,8 +1,16 @@
 #!/bin/bash
 # eval_seeded.sh [name...]: apply each confirmed seeded change to /repo, run its property's quick check (plus checks named in
 # seeded/<name>/also), record the outcome in seeded/<name>/result.json, undo the change.  /repo must be clean.
+# EVAL_WT=<dir>: use that scratch worktree of /repo (same HEAD) instead of /repo itself, through VERIF_REPO - for the times a long
+# clean-tree run is using /repo.
 cd /verif
-[ -n "$(git -C /repo status --porcelain --untracked-files=no)" ] && { echo "/repo has uncommitted changes"; exit 1; }
+T=/repo
+if [ -n "$EVAL_WT" ]; then
+  T=$EVAL_WT; [ -d $T ] || git -C /repo worktree add -q --detach $T HEAD || exit 2
+  git -C $T checkout -q --detach $(git -C /repo rev-parse HEAD); git -C $T checkout -- .
+  export VERIF_REPO=$T
+fi
+[ -n "$(git -C $T status --porcelain --untracked-files=no)" ] && { echo "$T has uncommitted changes"; exit 1; }
 names="$@"; [ -z "$names" ] && names=$(ls seeded)
 for n in $names; do
   d=seeded/$n; [ -f $d/meta.json ] || continue
@@ -10,7 +18,7 @@ for n in $names; do
   [ "$conf" = "True" ] || { echo "$n: not confirmed, skipped"; continue; }
   prop=$(python3 -c "import json;print(json.load(open('$d/meta.json'))['breaks_property'])")
   patch=$d/patch.diff; [ -f $d/patch.rebased.diff ] && patch=$d/patch.rebased.diff
-  git -C /repo apply /verif/$patch 2>/dev/null || { echo "$n: patch does not apply to current HEAD"; python3 -c "import json;json.dump({'applies':False},open('$d/result.json','w'))"; continue; }
+  git -C $T apply /verif/$patch 2>/dev/null || { echo "$n: patch does not apply to current HEAD"; python3 -c "import json;json.dump({'applies':False},open('$d/result.json','w'))"; continue; }
   res=""
   for id in $prop $(cat $d/also 2>/dev/null); do
     s=$(date +%s); out=$(timeout 1500 ./vcheck $id --tier quick 2>&1); r=$?; e=$(date +%s)
@@ -18,7 +26,7 @@ for n in $names; do
     res="$res{\"check\":\"$id\",\"exit\":$r,\"seconds\":$((e-s)),\"lines\":\"$v\"},"
     echo "$n: $id exit=$r $((e-s))s $v"
   done
-  git -C /repo checkout -- .
+  git -C $T checkout -- .
   python3 - "$d" "[${res%,}]" <<'PY'
 import json, sys
 d, res = sys.argv[1], json.loads(sys.argv[2])
